@@ -30,7 +30,8 @@ Proof.
   - destruct recs as [|r0 rest]. { simpl in SL. inversion SL. subst. auto. }
     destruct (perm_merge_invisible d0 (r0 :: rest) s v0) as [v [E Q]]; auto; try discriminate.
     intros q. unfold reads. rewrite E, RV. auto.
-  - destruct recs as [|r0 [|r1 rest]]; simpl in OK; try discriminate; simpl in SL; inversion SL; subst; auto.
+  - apply andb_true_iff in OK. destruct OK as [OK _].
+    destruct recs as [|r0 [|r1 rest]]; simpl in OK; try discriminate; simpl in SL; inversion SL; subst; auto.
 Qed.
 
 (* in particular the recovered storage never fails to load, and the temps/permanent last height is the one
